@@ -7,7 +7,7 @@
 EXTENDS PushRand, Json, IOUtils
 
 HarnessInstr == {"VERIF.PROBE", "VERIF.SLEEP", "VERIF.NOOP*WITH*A*NAME*LONGER*THAN*ANY*BUILTIN*INSTRUCTION",
-                 "VERIF.NÖÖP*MIT*UMLÄUTEN*ÜBER*DREIUNDZWANZIG*BYTES", "VERIF.ÄÖÜ*ÄÖÜ*ÄÖÜ*ÄÖÜ*ÄÖÜ*ÄÖÜ*ÄÖÜ*ÄÖÜ*ÄÖÜ*ÄÖÜ*ÄÖÜ*ÄÖÜ*NOOP", "VERIF.MyInstruction", "VERIFSQUARE", "verif.lower", "2VERIF", "424242", "4.25", "BOOL[1,0]", "INT[7", "integer.max", "Float.<", "name.cat"}
+                 "VERIF.NÖÖP*MIT*UMLÄUTEN*ÜBER*DREIUNDZWANZIG*BYTES", "VERIF.ÄÖÜ*ÄÖÜ*ÄÖÜ*ÄÖÜ*ÄÖÜ*ÄÖÜ*ÄÖÜ*ÄÖÜ*ÄÖÜ*ÄÖÜ*ÄÖÜ*ÄÖÜ*NOOP", "VERIF.MyInstruction", "VERIFSQUARE", "verif.lower", "2VERIF", "424242", "4.25", "BOOL[1,0]", "INT[7", "integer.max", "Float.<", "name.cat", "intvector.sum", "VERIF.EARLY"}
 Registry == StackOpNames \cup ScalarInstr \cup CodeFamily \cup VectorInstr \cup ListInstr \cup IOInstr
             \cup GraphInstr \cup RandInstr \cup {"NOOP"}
 \* instructions the build under test registers beyond those the specification gives a meaning to (supplied by the harness
